@@ -86,6 +86,9 @@ VerifyOK(e) ==
               \* C01: the message of an identity REGISTERED at the position it proved for (leaf = its rate commitment),
               \* verified unmodified against the same tree (and root sets containing the current root), is accepted
               /\ (Prop = "C01" /\ e.tag = "unmodified" /\ e.msg \in DOMAIN msgs /\ msgs[e.msg].member => e.res = "true")
+              \* C02: the verifier's tree history no longer contains the message's root (the sender's leaf was removed
+              \* just before): by collision resistance the current root differs, whatever the instance itself reports
+              /\ (Prop = "C02" /\ e.must = "reject" => e.res # "true")
 
 \* ---- proving ----
 Unmutated(e) == DOMAIN e.mut = {}
@@ -158,6 +161,7 @@ LineOK(e) ==
     [] e.t = "prove" -> ProveOK(e) /\ NullifierOK(e)
     [] e.t = "craft" -> e.res = "ok" /\ NullifierOK(e)
     [] e.t = "recover" -> RecoverOK(e)
+    [] e.t = "reopen" -> e.res = "ok"                \* a restart on the same persistent location finds its tree
     [] OTHER -> TRUE
 
 Advance(e) ==
